@@ -27,6 +27,15 @@ pub fn gen_value_case(g: &mut G, cfg: &gs::Cfg, op: &str, n_valid: usize, n_mut:
         gen::excluded("optional-cyclic-ref-made-nullable", n);
         // schema defaults on optional scalar / container properties
         add_property_defaults(g, &mut doc);
+        // an untagged union of a closed object and a larger open one that extends it
+        if g.chance(1, 4) {
+            let names = crate::gen::names::benign_props(g, 3);
+            if names.len() == 3 {
+                let small = json!({"type": "object", "properties": {names[0].clone(): {"type": "string"}, names[1].clone(): {"type": "string"}}, "required": [names[0].clone()], "additionalProperties": false});
+                let large = json!({"type": "object", "properties": {names[0].clone(): {"type": "string"}, names[1].clone(): {"type": "string"}, names[2].clone(): {"type": "integer"}}, "required": [names[0].clone(), names[2].clone()]});
+                doc["definitions"]["StrictThenLarger"] = json!({"oneOf": [small, large]});
+            }
+        }
         // a tuple whose positions are different in-line objects with optional members only
         if g.chance(1, 4) {
             let names = crate::gen::names::benign_props(g, 4);
